@@ -123,7 +123,9 @@ void StatusPrinter::BuildEdgeStarted(const Edge* edge,
   if (edge->use_console() || printer_.is_smart_terminal())
     PrintStatus(edge, start_time_millis);
 
-  if (edge->use_console())
+  // In a dry run no command owns the terminal; locking it would coalesce the
+  // status lines of the other "finished" commands, i.e. drop listed commands.
+  if (edge->use_console() && !config_.dry_run)
     printer_.SetConsoleLocked(true);
 }
 
